@@ -144,12 +144,24 @@ def watchApplied (node : α → Option FileRec) (disk : α → Option Nat) (s : 
       if r.rescannable ∧ disk p ≠ r.hash then some { path := p, cause := .external, newHash := disk p } else none
     | none => none
 
-/-- `updated` as handed to `process_nglob_changes`: the paths that were re-hashed and found
-unchanged are dropped. -/
+/-- `updated` as handed to `process_nglob_changes`: of the paths that were re-hashed, the unchanged
+ones are dropped, and so are the ones that turn out not to exist (they move to `deleted`). -/
 def prunedUpdated (node : α → Option FileRec) (disk : α → Option Nat) (s : Sets α) : List α :=
   s.updated.filter fun p => match node p with
-    | some r => !r.rescannable || decide (disk p ≠ r.hash)
+    | some r => !r.rescannable || (decide (disk p ≠ r.hash) && (disk p).isSome)
     | none => true
+
+/-- The re-hashed paths of `updated` whose new hash is unknown although the recorded one is not: the
+last item about them was an update, yet they are not there (a write reported through the watch of a
+directory that was renamed meanwhile arrives under the old path). -/
+def vanishedUpdated (node : α → Option FileRec) (disk : α → Option Nat) (s : Sets α) : List α :=
+  s.updated.filter fun p => match node p with
+    | some r => r.rescannable && decide (disk p ≠ r.hash) && (disk p).isNone
+    | none => false
+
+/-- `deleted` as handed to `process_nglob_changes`. -/
+def finalDeleted (node : α → Option FileRec) (disk : α → Option Nat) (s : Sets α) : List α :=
+  s.deleted ++ (vanishedUpdated node disk s).filter (· ∉ s.deleted)
 
 /-- `startup.rescan_files`: every attached file that is not PLANNED or VOLATILE is re-hashed, with
 cause CONFIRMED when it is UNCONFIRMED, else EXTERNAL; a result is applied when it differs or when the
